@@ -53,8 +53,10 @@ def native_replay(ctx, grp, full_name, hexinp):
         if key not in ctx.drivers:
             shadow.make_driver(ddir, grp["dir"], grp["variant"].get("pkg_name") or grp["variant"]["crate"], grp["variant"].get("features", []))
             ctx.drivers[key] = ddir
+        hexfile = os.path.join(ddir, "input.hex")
+        open(hexfile, "w").write(hexinp)
         for prof in ("dev", "release"):
-            cmd = ["cargo", "run", "--offline", "-q"] + (["--release"] if prof == "release" else []) + ["--", full_name, hexinp]
+            cmd = ["cargo", "run", "--offline", "-q"] + (["--release"] if prof == "release" else []) + ["--", full_name, "@" + hexfile]
             lp = os.path.join(ctx.scratch, f"replay_{key}_{prof}.log")
             rc, secs, _ = kani.run_cmd(cmd, ddir, lp, 1200, None, env={"RUSTFLAGS": "--cfg verif_native", "CARGO_TARGET_DIR": os.path.join(ddir, "target")})
             txt = open(lp).read()
@@ -65,10 +67,11 @@ def native_replay(ctx, grp, full_name, hexinp):
 
 def run_harness(ctx, grp, h):
     modname = h["_mod"]
-    full = f"verif_kani::{modname}::{h['name']}::check"
+    # harness modules of verif_kani are addressed by their plain module name; inner modules by their full path
+    full = f"{modname}::{h['name']}::check" if "::" in modname else f"verif_kani::{modname}::{h['name']}::check"
     short = f"{modname}::{h['name']}"
     tdir = os.path.join(ctx.scratch, "t_" + hashlib.sha1((grp["id"] + short).encode()).hexdigest()[:12])
-    logp = os.path.join(ctx.scratch, f"log_{grp['id']}_{modname}_{h['name']}.txt")
+    logp = os.path.join(ctx.scratch, f"log_{grp['id']}_{modname.replace('::', '.')}_{h['name']}.txt")
     cap = int(h.get("cap", plan.CAPS[ctx.tier]))
     mem = float(h.get("mem", plan.MEM_GB[ctx.tier]))
     cmd = ["/usr/bin/time", "-f", "VERIF_RSS_KB %M", "cargo", "kani", "--harness", full, "--exact",
@@ -87,7 +90,7 @@ def run_harness(ctx, grp, h):
     m = re.search(r"VERIF_RSS_KB (\d+)", text)
     rec = {
         "harness": f"{grp['id']}/{short}", "variant": grp["id"], "_vname": grp["vname"], "_files": grp["files"], "desc": h.get("desc", ""), "tier": h["tier"],
-        "symbolic_bits": h["bits"], "unwind": h.get("unwind"), "wall_s": round(secs, 1), "solver_s": round(r["solver_s"], 2),
+        "symbolic_bits": h["bits"], "wall_s": round(secs, 1), "solver_s": round(r["solver_s"], 2),
         "symex_s": round(r["symex_s"], 2), "queries": r["queries"], "variables": r["variables"], "clauses": r["clauses"],
         "vccs": r["vccs"], "checks_total": len([c for c in r["checks"] if ".cover." not in c["name"]]),
         "checks_success": len([c for c in r["checks"] if c["status"] == "SUCCESS"]),
@@ -102,7 +105,7 @@ def run_harness(ctx, grp, h):
         rec.update(verdict="INCONCLUSIVE", reason=f"timeout after {cap}s")
     elif r["compile_error"]:
         errs = re.findall(r"^error.*$", text, re.M)[:5]
-        rec.update(verdict="INCONCLUSIVE", reason="harness does not compile against current source: " + " | ".join(errs))
+        rec.update(verdict="INCONCLUSIVE", reason=("harness does not compile against current source: " + " | ".join(dict.fromkeys(errs)))[:400])
     elif not r["checks"]:
         rec.update(verdict="INCONCLUSIVE", reason=("out of memory" if r["oom"] else f"no results (rc={rc}): " + text[-300:].replace("\n", " ")))
     elif failed:
@@ -112,7 +115,7 @@ def run_harness(ctx, grp, h):
         else:
             real = [c for c in failed if "unwinding assertion" not in c["desc"]]
             rec["failed_checks"] = [{"name": c["name"], "desc": c["desc"], "loc": c["loc"]} for c in real[:8]]
-            hexinp, kind, kdesc = kani.playback_inputs(text, int(h["bytes"]))
+            hexinp, kind, kdesc = kani.playback_inputs(text)
             rec["counterexample_hex"] = hexinp
             if hexinp is None:
                 rec.update(verdict="INCONCLUSIVE", reason="FAILURE without extractable counterexample")
@@ -168,7 +171,7 @@ def replay_main(path):
         variant = plan.VARIANTS[vname]
         hfiles = [os.path.join(VERIF, "harness", f) for f in files]
         short = d["harness"].split("/", 1)[1]
-        mod, name = short.split("::")
+        mod, name = short.rsplit("::", 1)
         gdir = os.path.join(scratch, "s", variant.get("pkg_name") or variant["crate"])
         shadow.make_shadow(gdir, variant, hfiles, [(mod, name)])
         ctx = Ctx(d["property"], "quick", scratch, 1, 0)
@@ -228,18 +231,21 @@ def main():
                     if h.get("prop") and prop not in h["prop"].split(","):
                         continue
                     hs.append(h)
+            # harness modules injected inside private modules of the crate (variant["inner"])
+            for rel_src, modpath, hrel in variant.get("inner", []):
+                for h in parse_meta(os.path.join(VERIF, "harness", hrel)):
+                    h["_mod"] = shadow.inner_mod_path(modpath, hrel)
+                    if h.get("variants") and vname not in h["variants"].split(","):
+                        continue
+                    if h.get("prop") and prop not in h["prop"].split(","):
+                        continue
+                    hs.append(h)
+            sel = [h for h in hs if not (a.tier == "quick" and h["tier"] != "quick") and not (a.only and a.only not in h["name"])]
+            if not sel:
+                continue
             gid = re.sub(r"[^A-Za-z0-9_]+", "_", vname)
             gdir = os.path.join(scratch, "s_" + gid, variant.get("pkg_name") or variant["crate"])
             try:
-                # bytes= is read from the harness source (macro argument) so that meta cannot drift
-                for h in hs:
-                    src = open(os.path.join(VERIF, "harness", [f for f in files if shadow.harness_mod_name(f) == h["_mod"]][0])).read()
-                    mm = re.search(r"name:\s*%s,\s*\n\s*bytes:\s*([0-9+* ()]+)," % re.escape(h["name"]), src)
-                    if not mm:
-                        raise shadow.ShadowError(f"harness {h['name']}: verif_harness! block not found")
-                    h["bytes"] = eval(mm.group(1))
-                    um = re.search(r"name:\s*%s,\s*\n\s*bytes:[^\n]*\n\s*unwind:\s*(\d+)," % re.escape(h["name"]), src)
-                    h["unwind"] = int(um.group(1)) if um else None
                 _, tlog = shadow.make_shadow(gdir, variant, hfiles, [(h["_mod"], h["name"]) for h in hs])
                 transforms[vname] = tlog
             except shadow.ShadowError as e:
@@ -263,7 +269,7 @@ def main():
                 except Exception as e:  # engine failure
                     rec = {"harness": f"{g['id']}/{h['_mod']}::{h['name']}", "verdict": "INCONCLUSIVE", "reason": f"engine exception {e!r}", "symbolic_bits": h["bits"], "desc": h.get("desc", "")}
                 records.append(rec)
-                print(f"[{rec['verdict']:12}] {rec['harness']:60} {rec.get('wall_s', 0):7.1f}s {rec.get('reason', '')}", flush=True)
+                print(f"[{rec['verdict']:12}] {rec['harness']:60} {rec.get('wall_s', 0):7.1f}s {rec.get('reason', '')[:160]}", flush=True)
     finally:
         pass
     known = load_known()
